@@ -1,7 +1,7 @@
 (* The stores of conversions.equate as data: each `_ratios[X.unit][Y.unit] = _div(P.magnitude, Q.magnitude)` of the source is
    one (X, Y, P, Q) with X, Y, P, Q naming the (unprefixed) operands a or b.  The per-run translator (harness/c08.py, Gen_eqshape)
    reads the list off the source; equate_of runs it; Proofs/EquateFacts.v shows the shipped list is Model.Convert.equate. *)
-From Coq Require Import QArith List.
+From Coq Require Import QArith Qabs List Bool.
 From Measured Require Import Model.Units Model.Convert.
 Import ListNotations.
 Local Open Scope Q_scope.
@@ -61,3 +61,25 @@ Definition shipped_tstores : list tstore_shape :=
    the table on).  only_rows is the hypothesis under which Proofs/TableRows.v applies to the source: rows registered by lookups are invisible *)
 Inductive tuse := URow | UDef | UOther.
 Definition only_rows (l : list tuse) : bool := forallb (fun u => match u with UOther => false | _ => true end) l.
+
+(* ---------- the invariants of Proofs/EquateFacts.v as executable checks on an exported table ----------
+   (the implementation stores floats: _div(b, a) * _div(a, b) is one within rounding, so the check takes a tolerance) *)
+Definition reciprocalb (eps : Q) (t : table) : bool :=
+  forallb (fun ar : unit3 * row => forallb (fun br : unit3 * Q =>
+    match tget t (fst br) (fst ar) with
+    | Some r' => Qle_bool (Qabs (snd br * r' - 1)) eps
+    | None => false
+    end) (snd ar)) t.
+Definition oppositeb (o : table) : bool :=
+  forallb (fun ar : unit3 * row => forallb (fun br : unit3 * Q =>
+    match tget o (fst br) (fst ar) with
+    | Some z' => Qeq_bool (snd br + z') 0
+    | None => false
+    end) (snd ar)) o.
+(* every stored offset belongs to a pair whose stored ratio is one, both ways (translate's shape) *)
+Definition offsets_on_unit_ratiosb (t o : table) : bool :=
+  forallb (fun ar : unit3 * row => forallb (fun br : unit3 * Q =>
+    match tget t (fst ar) (fst br), tget t (fst br) (fst ar) with
+    | Some r, Some r' => Qeq_bool r 1 && Qeq_bool r' 1
+    | _, _ => false
+    end) (snd ar)) o.
